@@ -98,6 +98,24 @@ class Raised:
         }
 
 
+def _engine_exception(exc):
+    """'alarm' / 'engine' if an exception of the analysis engine itself (wall-clock alarm that
+    fired inside a ctypes call, z3 error) was swallowed and re-wrapped by the code under
+    analysis (pymarkdown wraps every Exception into BadTokenizationError/BadPluginError)."""
+    e = exc
+    n = 0
+    while e is not None and n < 8:
+        name = type(e).__name__
+        text = str(e)
+        if "wall-clock alarm" in text or "_Alarm" in text:
+            return "alarm"
+        if name in ("ArgumentError", "Z3Exception", "CrossHairInternal") or isinstance(e, z3.Z3Exception):
+            return "engine"
+        e = e.__cause__ or e.__context__
+        n += 1
+    return None
+
+
 def _intolerant(exc) -> bool:
     e = exc
     n = 0
@@ -164,6 +182,11 @@ def explore(harness, seed=0, per_path_timeout=30.0, budget_s=600.0, hard_extra=1
                         try:
                             obs = harness.body(v)
                         except Exception as exc:  # user-level exception
+                            eng = _engine_exception(exc)
+                            if eng == "alarm":
+                                raise _Alarm("wall-clock alarm (re-wrapped by the code under analysis)")
+                            if eng == "engine":
+                                raise CrosshairUnsupported("engine exception re-wrapped: " + repr(exc)[:200])
                             if _intolerant(exc):
                                 raise CrosshairUnsupported(
                                     "proxy intolerance: " + repr(exc)[:200]
